@@ -14,7 +14,7 @@
    Statements only. *)
 From Coq Require Import String.
 From Coq Require Import ZArith QArith List Bool Arith Permutation Lia.
-From BS Require Import Core.Base Core.GridQ Model.Aod Model.LibMoves Proofs.AodProofs Proofs.AodRoundTrip Proofs.AodSelect Proofs.AodPre Proofs.AodLegs Proofs.LibMovesProofs.
+From BS Require Import Core.Base Core.GridQ Model.Aod Model.LibMoves Proofs.AodProofs Proofs.AodRoundTrip Proofs.AodSelect Proofs.AodPre Proofs.AodLegs Proofs.LibMovesProofs Model.Arch Model.Builders Proofs.BuilderMoves.
 Import ListNotations.
 
 Theorem C08_no_atom_lost_or_duplicated : forall st ps st',
@@ -259,6 +259,25 @@ Proof.
   exists ps, st'. split; [exact E | exact H].
 Qed.
 
+(* ... on EVERY layout two_col_zone.get_spec builds with a pitch above 6 and a positive gate spacing (any number of pairs and rows):
+   every rearrange call meeting the documented preconditions, with a free destination, is executed and delivers zone[src] to zone[dst] *)
+Theorem C08_rearrange_on_every_two_column_layout : forall nx ny s gs sx sy dx dy O,
+  (0 < gs)%Q -> (6 < s)%Q ->
+  let zx := xpos (two_col_traps nx ny s gs) in let zy := ypos (two_col_traps nx ny s gs) in
+  rearrange_preconditionsb zx zy sx sy dx dy = true -> occ_wfb O = true ->
+  forallb (fun p => match occ_find p O with None => true | Some _ => existsb (pos_eqb p) (grid_sites (pick_coords sx zx, pick_coords sy zy)) end)
+          (grid_sites (pick_coords dx zx, pick_coords dy zy)) = true ->
+  exists ps st', rearrange_model zx zy sx sy dx dy = Some ps /\
+    sim_paths (mkast (grid_sites (zx, zy)) O [] [] []) ps = AOk st' /\ held st' = [] /\
+    forall i j, (i < length sx)%nat -> (j < length sy)%nat ->
+      occ_find (nth (nth i dx 0%nat) zx 0%Q, nth (nth j dy 0%nat) zy 0%Q) (occ st') =
+      occ_find (nth (nth i sx 0%nat) zx 0%Q, nth (nth j sy 0%nat) zy 0%Q) O.
+Proof.
+  intros nx ny s gs sx sy dx dy O Hg Hs zx zy Hpre HO Hd.
+  destruct (two_col_layouts_allow_parking nx ny s gs Hg Hs) as [Ax [Ay Hp]].
+  exact (C08_rearrange_documented_call_delivers zx zy sx sy dx dy O Ax Ay Hp Hpre HO Hd).
+Qed.
+
 (* the full statement "every accepted rearrange call is executable" is FALSE of the faithful model: the hard-coded +-3 parking offsets
    make two tweezers coincide on a zone with pair pitch 6 (known finding; the witness is the replay) *)
 Theorem C08_rearrange_acceptance_alone_refuted :
@@ -309,3 +328,4 @@ Print Assumptions C08_legs_simulate_as_the_merged_path.
 Print Assumptions C08_recognised_multi_leg_move_is_executable_and_delivers.
 Print Assumptions C08_rearrange_documented_call_is_accepted.
 Print Assumptions C08_rearrange_documented_call_delivers.
+Print Assumptions C08_rearrange_on_every_two_column_layout.
